@@ -7,7 +7,11 @@ EXTENDS MigrationJob
 CONSTANTS MaxW,       \* write indices 1..MaxW may be chosen to fail
           Ttls,       \* TTL choices in ticks (0 = no TTL)
           MaxNow
-FaultSets == SUBSET (1..MaxW)
+\* Which writes of one Reconcile fail.  After a failed write the controller returns, except that a failed
+\* CreateReservation is followed by one more status write (and `_ = abort...` ignores its own error and returns), so at
+\* most two failures are ever reached and they are consecutive: singletons and adjacent pairs cover every outcome of
+\* SUBSET (1..MaxW) (checked once with FaultSets == SUBSET (1..MaxW): same distinct-state count).
+FaultSets == {{}} \cup {{i} : i \in 1..MaxW} \cup {{i, i + 1} : i \in 1..(MaxW - 1)}
 Pars == [ttl : Ttls, preempt : BOOLEAN, owned : BOOLEAN]
 Init == \E p0 \in Pars, n0 \in Nodes : InitWith(p0, n0)
 Next == \/ \E F \in FaultSets : Reconcile(F)
